@@ -309,14 +309,58 @@ first_step_saddr(addrxlat_step_t *step, addrxlat_addr_t addr)
 	return step_check_saddr(step);
 }
 
+/** Maximum number of address fields for a PTE format.
+ * @param fmt  PTE format.
+ * @returns    Number of paging levels defined by the architecture plus one
+ *             (for the page offset).
+ *
+ * The format-specific step functions have per-level data (e.g. the level
+ * names used in error messages) only for the levels that exist in the
+ * architecture, and the index array of the step state has room for
+ * @c ADDRXLAT_FIELDS_MAX fields.
+ */
+static unsigned short
+pf_max_fields(addrxlat_pte_format_t fmt)
+{
+	switch (fmt) {
+	case ADDRXLAT_PTE_ARM:
+	case ADDRXLAT_PTE_IA32:
+		return 3;
+
+	case ADDRXLAT_PTE_IA32_PAE:
+		return 4;
+
+	case ADDRXLAT_PTE_PPC64_LINUX_RPN30:
+		return 5;
+
+	case ADDRXLAT_PTE_AARCH64:
+	case ADDRXLAT_PTE_AARCH64_LPA:
+	case ADDRXLAT_PTE_AARCH64_LPA2:
+	case ADDRXLAT_PTE_RISCV64:
+	case ADDRXLAT_PTE_S390X:
+	case ADDRXLAT_PTE_X86_64:
+		return 6;
+
+	default:
+		return ADDRXLAT_FIELDS_MAX;
+	}
+}
+
 /** Initialize step state for page table walk.
  * @param step  Step state.
  * @param addr  Address to be translated.
- * @returns     Always returns success.
+ * @returns     Error status.
  */
 static addrxlat_status
 first_step_pgt(addrxlat_step_t *step, addrxlat_addr_t addr)
 {
+	const addrxlat_paging_form_t *pf = &step->meth->param.pgt.pf;
+
+	if (pf->nfields > pf_max_fields(pf->pte_format))
+		return set_error(step->ctx, ADDRXLAT_ERR_NOTIMPL,
+				 "Too many paging levels: %u",
+				 (unsigned) pf->nfields);
+
 	switch (step->meth->param.pgt.pf.pte_format) {
 	case ADDRXLAT_PTE_NONE:
 	case ADDRXLAT_PTE_AARCH64:
